@@ -27,11 +27,17 @@ pub trait BFlavor: PFlavor + Send + Sync + 'static {
     const MODEL: &'static str;
     fn type_universe() -> Vec<String>;
     fn make(s: &str) -> Self;
+    fn default_builder() -> Option<GenericPurlBuilder<Self>> {
+        None
+    }
     /// the type string as the builder holds it (before build() normalises it)
     fn raw(&self) -> String;
 }
 
 impl BFlavor for String {
+    fn default_builder() -> Option<GenericPurlBuilder<Self>> {
+        Some(GenericPurlBuilder::default())
+    }
     const MODEL: &'static str = "builder-bfs";
     fn type_universe() -> Vec<String> {
         ["t", "T.1+x-", "", "!", "é"].iter().map(|s| s.to_string()).collect()
@@ -390,6 +396,12 @@ impl<T: BFlavor> Model for BModel<T> {
                     continue;
                 }
                 out.push((json!({"new": [t, n]}), BState { real, refb }));
+            }
+        }
+        // the Default builder (empty type string, empty name), where the type parameter has one
+        if !T::TYPED && !self.sharp {
+            if let Some(b) = T::default_builder() {
+                out.push((json!("default()"), BState { real: b, refb: RefBuilder::default() }));
             }
         }
         // builders that already hold several qualifiers (so that one removal / one retain acts on the
